@@ -6,7 +6,7 @@ import numpy as np
 from .. import coqio as cq
 from .. import fa
 from .. import gen
-from ..impl import em, hexlist
+from ..impl import da, em, hexlist
 
 linear_scoring = em.linear_scoring
 
@@ -87,6 +87,32 @@ def run(chk):
                     chk.fail("ISVMachine.transform of one frame given as a vector is not the channel offset U x of that frame's UBM statistics", dict(ctx, frame=hexlist(arrays[0][0])))
             except Exception as e:
                 chk.fail("ISVMachine.transform of a single frame given as a vector raises %r" % (e,), ctx)
+        # probe statistics computed from Dask arrays (their fields are lazy): same channel factor and score
+        if i % 4 == 3:
+            try:
+                dprobe = [ubm.acc_stats(da.from_array(a_, chunks=(max(1, len(a_) // 2), a_.shape[1]))) for a_ in arrays]
+                s_d = float(m.score(model, dprobe))
+                x_d = np.asarray(m.estimate_x(dprobe), dtype=float)
+                chk.count(1, key=("dask-backed-probe", kind))
+                if not (abs(s_d - score) <= 1e-9 * max(1.0, abs(score)) and np.allclose(x_d, x, rtol=1e-9, atol=1e-12)):
+                    chk.fail("a probe whose statistics were computed from Dask arrays scores %.12g instead of %.12g" % (s_d, score), ctx)
+            except Exception as e:
+                chk.fail("scoring a probe whose statistics were computed from Dask arrays raises %r" % (e,), ctx)
+        # training from arrays: the labels as a column (n, 1) are the same labels
+        if i % 10 == 4:
+            g_ = gen.nprng(r)
+            Xa_ = np.asarray(ubm.means)[g_.integers(0, C, size=(4, 3))] + g_.normal(size=(4, 3, D)) * np.sqrt(np.asarray(ubm.variances).mean())
+            ya_ = np.array([0, 1, 1, 0])
+            try:
+                mk_ = lambda: fa.make_machine(kind, copy.deepcopy(ubm), 1, 1, em_iterations=1, random_state=2)
+                Uf = np.asarray(mk_().fit_using_array(Xa_, ya_).U)
+                Uc = np.asarray(mk_().fit_using_array(Xa_, ya_.reshape(-1, 1)).U)
+                Ul = np.asarray(mk_().fit_using_array(Xa_, [int(q) for q in ya_]).U)
+                chk.count(1, key=("label-layouts", kind))
+                if not (np.allclose(Uf, Uc, rtol=1e-12, atol=0) and np.allclose(Uf, Ul, rtol=1e-12, atol=0)):
+                    chk.fail("%s.fit_using_array gives another U when the same labels are passed as a column / a list" % kind.upper(), ctx)
+            except Exception as e:
+                chk.fail("%s.fit_using_array with labels as a flat array / column / list raises %r" % (kind.upper(), e), ctx)
         # ---- fractional / soft counts: statistics whose occupancies do not add up to the frame count t (the normalisation is by t)
         kf = r.choice([0.37, 1.6])
         probe_f = []
